@@ -359,7 +359,10 @@ CHECKS['C09'] = dict(
          'parses to the same document with the same definitions and the same HTML under every configuration '
          '(C09_blocks_roundtrip_markdown), instantiated for the token lists regenerated from /repo. The Markdown renderer model is '
          'tied to the code byte for byte on all 652 spec examples x 4 option sets, generated documents and perturbed trees; the '
-         'theorem\'s hypotheses are evaluated by the second driver and its conclusion checked on the real renderer. Everything '
+         'theorem\'s hypotheses are evaluated by the second driver and its conclusion checked on the real renderer. The fragment '
+         'has grown by further files: fenced and indented code blocks (Props/C09_Code.lean), bullet and ordered lists in normal '
+         'form nested to any depth (Props/C09_Lists.lean), setext headings at top level and HTML blocks of start condition 6 / 7 '
+         '(Props/C09_Setext.lean) - each with its own re-check on the real renderer (c09.theorem.code / .lists / .setext). Everything '
          'outside the fragment (other block and inline constructs, documents not in normal form) is decided by round-trip '
          'exploration of the three clauses on generated documents and the spec corpus; the spec examples that fail today are '
          'listed individually as known findings.',
